@@ -127,6 +127,22 @@ func (o *oracle) check(h uint64, lost *types.Block) bool {
 			}
 		}
 		c.Count("state_comparisons", 1)
+		if slots := o.ref.slots[h]; len(slots) > 0 {
+			tryPanic(func() {
+				st := n.App.VerifStoreState()
+				for a, want := range slots {
+					if len(st.GetCode(a)) == 0 {
+						bad("crash/state/contract-code-missing", fmt.Sprintf("contract %s created in a stored block has no code after restart", a.Hex()), nil)
+					} else if got := st.GetState(a, common.Hash{}); !bytes.Equal(got, want) {
+						bad("crash/state/contract-storage-not-of-stored-prefix", fmt.Sprintf("contract %s slot 0 = %x, reference replica after block %d has %x", a.Hex(), got, h, want), nil)
+					}
+					c.Count("contract_storage_comparisons", 1)
+					if len(bytes.Trim(want, "\x00")) > 0 {
+						c.Count("contract_storage_comparisons_nonzero", 1)
+					}
+				}
+			})
+		}
 	}
 
 	// ---- consensus status and its per-height records
